@@ -190,4 +190,13 @@ theorem columns_refine (z : α) (dim w Ns i : Nat) (A : List (List α)) (v : Lis
       · have : j ≠ i := fun e => hji e.symm
         simp [hji, hother j this]
 
+/-- the hypotheses of the theorems above are satisfiable: a `(2, 3)` array -/
+lemma rect_example : Rect 2 3 [[(1 : Int), 2, 3], [4, 5, 6]] := ⟨rfl, by simp⟩
+
+example := alloc_rect (0 : Int) 2 4 3 _ rect_example
+example := alloc_keeps_stored_columns (0 : Int) 2 4 3 _ rect_example
+example := store_column (0 : Int) 2 3 1 _ [8, 9] rect_example (by decide) rfl
+example := last_column (0 : Int) 2 3 _ rect_example (by decide)
+example := columns_refine (0 : Int) 2 3 4 1 _ [8, 9] rect_example (by decide) (by decide) rfl
+
 end CuqiVerif.C09
